@@ -36,13 +36,13 @@ C0 = 30000
 C1 = 2500
 C1_ZERO_WIDTH = 1500000      # types holding a list of zero-width elements (PER: up to 64K elements per length octet)
 SIZE_C0, SIZE_C1 = 256, 64   # result nodes <= SIZE_C0 + SIZE_C1 * len(input)   (zero-width lists: 70000 per byte)
-AS_CAP = 3 * 1024 ** 3
+AS_CAP = 1024 ** 3          # 1 GiB: far above anything a decode of <= 4 KiB legitimately needs
 
 ASSUMPTIONS = [
     'Budget constants (fixed, printed in bounds): steps <= 30000 + 2500*(len+1)*(nesting+1); types that contain a '
     'list whose elements have zero-width encodings use 1.5e6 per byte (X.691 lets one length octet announce 64K '
     'such elements) and are only explored on inputs <= 8 bytes; result size <= 256 + 64*len nodes (70000*len for '
-    'zero-width lists); address space capped at 3 GiB (MemoryError is a violation).',
+    'zero-width lists); address space capped at 1 GiB (MemoryError is a violation).',
     '"Any byte string whatsoever" is explored as: all strings of length <= 2 (thorough: <= 4 over a 12-byte '
     'alphabet) and all <= E-edit variants of valid encodings (quick E=1, thorough E=2 on encodings <= 24 bytes).',
     'The statelessness part is checked by a sentinel battery at the end of every work unit, not after every input.',
